@@ -89,7 +89,7 @@ def gen_case(rng: random.Random, tier: str) -> dict:
         spec = {"form": "keywords", "kw": {"stage1": f"{lhs} ~ {parts[0]}", "stage2": {"a": part(2), "b": parts[-1]}}}
     if rng.random() < 0.12:  # a structured specification that holds nothing but a root entry (with or without a nested level)
         spec = {"form": "root_only", "root": rng.choice([parts[0], f"{lhs} ~ {parts[0]}", [parts[0], part(2)]])}
-    return {"mix": rng.choice([None, "last", "first", "all_but_first", "all"]), "efr": rng.random() < 0.7, "cols": cols, "spec": spec, "output": rng.choice(["pandas", "numpy", "sparse"]), "pnull": pnull,
+    return {"cluster": rng.choice([None, None, "numerical_factors"]), "mix": rng.choice([None, "last", "first", "all_but_first", "all"]), "efr": rng.random() < 0.7, "cols": cols, "spec": spec, "output": rng.choice(["pandas", "numpy", "sparse"]), "pnull": pnull,
             "enc": sorted(enc.values())}
 
 
@@ -138,12 +138,13 @@ def judge(case) -> Outcome:
         return out
     fleaves = list(walk(form))
     skeleton = tuple(p for p, _ in fleaves)
-    out.sig = (skeleton, tuple(len(leaf) for _, leaf in fleaves), case["pnull"] > 0, case["output"], tuple(case["enc"]), case.get("efr", True))
+    out.sig = (skeleton, tuple(len(leaf) for _, leaf in fleaves), case["pnull"] > 0, case["output"], tuple(case["enc"]), case.get("efr", True), case.get("cluster"))
     tag = f"{case['spec']} out={case['output']} efr={case.get('efr', True)}"
     joint: set = set()
     try:
         with quiet():
-            res = form.get_model_matrix(df, output=case["output"], drop_rows=joint, context={}, ensure_full_rank=case.get("efr", True))
+            ckw = {"cluster_by": case["cluster"]} if case.get("cluster") else {}
+            res = form.get_model_matrix(df, output=case["output"], drop_rows=joint, context={}, ensure_full_rank=case.get("efr", True), **ckw)
     except Exception as e:  # noqa: BLE001
         out.fail("c07.joint_build_raised", f"{tag}: {type(e).__name__}: {str(e)[:200]}")
         return out
@@ -166,7 +167,7 @@ def judge(case) -> Outcome:
         # separate build of this part's terms with the jointly dropped rows supplied as the drop set
         try:
             with quiet():
-                alone = leaf.get_model_matrix(df, output=case["output"], drop_rows=set(dropped), context={}, ensure_full_rank=case.get("efr", True))
+                alone = leaf.get_model_matrix(df, output=case["output"], drop_rows=set(dropped), context={}, ensure_full_rank=case.get("efr", True), **ckw)
         except Exception as e:  # noqa: BLE001
             out.fail("c07.separate_build_raised", f"{tag}: part {path} alone: {type(e).__name__}: {str(e)[:150]}")
             return out
@@ -225,7 +226,7 @@ def judge(case) -> Outcome:
             i = k[0]
             k[0] += 1
             fresh = {"last": i == nleaves - 1, "first": i == 0, "all_but_first": i > 0, "all": True}[mix]
-            return ModelSpec.from_spec(sp.formula, output=sp.output, ensure_full_rank=sp.ensure_full_rank) if fresh else sp
+            return ModelSpec.from_spec(sp.formula, output=sp.output, ensure_full_rank=sp.ensure_full_rank, cluster_by=sp.cluster_by) if fresh else sp
 
         try:
             with quiet():
